@@ -93,6 +93,9 @@ LEAF_VALUES = {"z": None, "b": True, "i": 3, "f": 1.5, "s": "a", "d": {}, "L": [
 def value_of(tok: str) -> Any:
     from numpy import array
 
+    if tok == "D":
+        return {"u": array([1.5, 2.5]), "v": {"w": complex(1.5, 0.5)}, "t": (1, 2)}
+
     if tok == "c":
         return complex(1.5, 0.5)
     if ":" not in tok:
@@ -302,7 +305,7 @@ class ImplWorld:
         if op == "new":
             self.slots[int(t[1])] = (SimpleGrammar if t[2] == "S" else JSONGrammar)(f"g{t[1]}")
             return "ok"
-        if op in ("upd", "copy", "pickle"):
+        if op in ("upd", "copy", "pickle", "dcopy"):
             a, b = int(t[1]), int(t[2])
             src = self.slots[b] if op == "upd" else self.slots[a]
             if src is None or (op == "upd" and self.slots[a] is None):
@@ -343,6 +346,8 @@ class ImplWorld:
                 self.slots[b] = self.slots[a].copy()
             elif op == "pickle":
                 self.slots[b] = pickle.loads(pickle.dumps(self.slots[a]))
+            elif op == "dcopy":
+                self.slots[b] = _copy.deepcopy(self.slots[a])
             elif op == "setdef":
                 g.defaults[t[2]] = int(t[3])
             elif op == "deldef":
@@ -405,7 +410,7 @@ def accepts(g: Any, data: dict[str, Any]) -> bool:
 # --------------------------------------------------------------------------- oracle (property text)
 
 QUERIES = {"val", "qschema", "qjson", "qsimple", "qmisc"}
-VALUE_TOKENS = ["z", "b", "i", "f", "s", "d", "c", "nd:ff", "nd:ii", "nd:", "l:ii", "l:ff", "l:ss", "l:", "l:is", "l:fz", "l:L", "t:ii", "l:b", "l:d"]
+VALUE_TOKENS = ["z", "b", "i", "f", "s", "d", "D", "c", "nd:ff", "nd:ii", "nd:", "l:ii", "l:ff", "l:ss", "l:", "l:is", "l:fz", "l:L", "t:ii", "l:b", "l:d"]
 
 
 def cast_ref(v: Any) -> Any:
@@ -607,7 +612,7 @@ def targets_of(line: str) -> set[int]:
         return set()
     if op == "reset":
         return set(range(NSLOTS))
-    if op in ("copy", "pickle"):
+    if op in ("copy", "pickle", "dcopy"):
         return {int(t[2])}
     return {int(t[1])}
 
@@ -620,7 +625,7 @@ def expected_exception(w: ImplWorld, line: str) -> str | None:
 
     t = line.split()
     op = t[0]
-    if op in ("reset", "new", "clear", "copy", "pickle", "deldef", "reqdisc"):
+    if op in ("reset", "new", "clear", "copy", "pickle", "dcopy", "deldef", "reqdisc"):
         return None
     g = w.slots[int(t[1])]
     if g is None:
@@ -679,7 +684,7 @@ def execute(lines: list[str], seed_key: str, heavy: bool, plain: list[str] | Non
         before = [w.show_slot(i) for i in range(NSLOTS)]
         exp_exc = expected_exception(w, ln)
         src_before = None
-        if op == "pickle" and w.slots[int(t[1])] is not None:
+        if op in ("pickle", "dcopy") and w.slots[int(t[1])] is not None:
             src_before = w.show_slot(int(t[1]))
         st = w.apply(ln)
         after = [w.show_slot(i) for i in range(NSLOTS)]
@@ -704,7 +709,7 @@ def execute(lines: list[str], seed_key: str, heavy: bool, plain: list[str] | Non
                 if before[i] != after[i]:
                     bad.append((f"failed-op-changed-state:{op}", f"{where} raised {st} but changed slot {i}: {before[i]} -> {after[i]}"))
         # pickling / copying keeps the definition
-        if op == "pickle" and st == "ok" and src_before is not None:
+        if op in ("pickle", "dcopy") and st == "ok" and src_before is not None:
             d = after[int(t[2])]
             if d != src_before:
                 bad.append(("pickle-definition", f"{where}: unpickled grammar {d} differs from the pickled one {src_before}"))
@@ -1000,7 +1005,7 @@ class Gen:
             self.add(f"clear {s}")
             self.keys[s] = []
         elif op in ("copy", "pickle"):
-            self.copy_like(op)
+            self.copy_like("dcopy" if op == "pickle" and rng.chance(0.3) else op)
         elif op == "setdef":
             self.add(f"setdef {s} {self.existing(s)} {rng.randint(1, 9)}")
         elif op == "deldef":
@@ -1093,7 +1098,7 @@ def neighbours(case: dict[str, Any], rng: common.Rng):
             new.append(ln)
             t = ln.split()
             if t[0] not in QUERIES and t[0] != "new":
-                s = t[2] if t[0] in ("copy", "pickle") else t[1]
+                s = t[2] if t[0] in ("copy", "pickle", "dcopy") else t[1]
                 new.append(f"{q} {s}" + (" -" if q == "val" else ""))
         yield {"ops": new, "probe": False}
     # pickle / copy round trips appended
@@ -1626,8 +1631,8 @@ def run(ctx) -> Result:
     check_cases(res, corpus, rng, ctx.deadline)
     res.count("corpus", len(corpus))
     check_shipped_files(res, rng)
-    check_pydantic(res, common.make_rng(ctx.seed, "C15-pydantic"), 1500 if ctx.thorough else 150, ctx.deadline)
-    n = 6000 if ctx.thorough else 500
+    check_pydantic(res, common.make_rng(ctx.seed, "C15-pydantic"), 1500 if ctx.thorough else 300, ctx.deadline)
+    n = 6000 if ctx.thorough else 1200
     soft_deadline = min(ctx.deadline, ctx.t0 + (900 if ctx.thorough else 100))
     done = 0
     while done < n and time.time() < soft_deadline:
